@@ -4,6 +4,8 @@ import json, os, sys
 VERIF = os.path.dirname(os.path.dirname(os.path.abspath(__file__)))
 sys.path.insert(0, VERIF)
 from checks import CHECKS
+READY = [l.strip() for l in open(os.path.join(VERIF, 'checks.d', 'READY.txt')) if l.strip() and not l.startswith('#')]
+CHECKS = {k: v for k, v in CHECKS.items() if k in READY}
 props = [json.loads(l)['id'] for l in open(os.path.join(VERIF, 'properties.jsonl'))]
 checks = []
 for pid in props:
